@@ -174,6 +174,56 @@ class C05(Check):
                 ctx.prove(o[i] == want, "target_formula")
             ctx.prove(smp.n_likelihood_evaluations - n0 == b and tgt.n_points == b, "likelihood_count")
 
+            # translator validation: the same call on the real class with NumPy and
+            # closed-form user functions, against the symbolic output under a model
+            if cfg["transform"] in ("stub", "identity"):
+                def Lf(*a):
+                    return -0.5 * sum((v - 0.3) ** 2 for v in a) + 0.1 * a[0]
+
+                def Pf(*a):
+                    return -0.7 * sum(abs(v) for v in a) - 0.2
+
+                def Qf(*a):
+                    return -0.25 * sum(v * v for v in a) + 0.05 * sum(a) - 1.0
+
+                def runner(env):
+                    import aspire.transforms as T
+
+                    zz = np.asarray(env_array(env, "z", (b, d)))
+                    if cfg["transform"] == "stub":
+                        Xs = np.asarray(env_array(env, "tx1", (b, d)))
+                        LJs = np.asarray(env_array(env, "tlj1", (b,)))
+
+                        class Tr:
+                            xp = np
+                            dtype = None
+
+                            def inverse(self, z_):
+                                return Xs.copy(), LJs.copy()
+
+                        tr2 = Tr()
+                    else:
+                        tr2 = T.IdentityTransform(xp=np)
+
+                    class Flow:
+                        def log_prob(self, x):
+                            return np.array([Qf(*r) for r in np.asarray(x)])
+
+                    s2 = get_sampler_class(sname)(
+                        log_likelihood=lambda s_: np.array([Lf(*r) for r in np.asarray(s_.x)]),
+                        log_prior=lambda s_: np.array([Pf(*r) for r in np.asarray(s_.x)]),
+                        dims=d,
+                        prior_flow=Flow(),
+                        xp=np,
+                        preconditioning_transform=tr2,
+                    )
+                    if sname == "MCMCSampler":
+                        return {"lp": np.asarray(s2.log_prob(zz))}
+                    bv = env.get("beta")
+                    return {"lp": np.asarray(s2.log_prob(zz, 0.5 if bv is None else float(bv)))}
+
+                ctx.validate({"lp": o}, runner, fns={"L": Lf, "PI": Pf, "Q": Qf})
+
         return h
 
     def h_fp(self, cfg):
